@@ -42,6 +42,14 @@ MUTATIONS = {
         ["C05", "C02"],
         [("flox/core.py", "count_mask = counts < min_count", "count_mask = counts <= min_count")],
     ),
+    "falsy_fill_lost": (
+        ["C05"],
+        [("flox/core.py", '    fill_value = agg.fill_value["user"]\n    if min_count > 0:', '    fill_value = agg.fill_value["user"] or agg.fill_value[agg.name]\n    if min_count > 0:')],
+    ),
+    "isin_mask_dropped": (
+        ["C05", "C01"],
+        [("flox/core.py", "mask = ~np.isin(flat, expect) | isnull(flat) | (idx == len(expect))", "mask = isnull(flat) | (idx == len(expect))")],
+    ),
     "nanmin_combine_min": (
         ["C04"],
         [("flox/aggregations.py", '    chunk="nanmin",\n    combine="nanmin",', '    chunk="nanmin",\n    combine="min",')],
